@@ -29,6 +29,9 @@ type AdminCfg struct {
 	SetUsers func(usersJSON string) error // installs the user list into the real auth.Manager
 	State    func() string                // fingerprint of everything a request could change
 	Batches  int
+	// TrustedProxy: the server is configured with 127.0.0.1 as its only trusted proxy: a request that arrives from
+	// 127.0.0.1 with X-Forwarded-For / X-Real-Ip is a request of the client named there
+	TrustedProxy bool
 }
 
 type adminCred struct {
@@ -137,7 +140,7 @@ func AdminAuthMonitor(r *Run, cfg AdminCfg) {
 			}
 			j := job{rt: rt, cred: creds[rng.IntN(len(creds))], ip: []string{"127.0.0.1", "127.0.0.2"}[rng.IntN(2)], preflight: rng.IntN(12) == 0}
 			j.want, _ = RefAdmit(users, RefReq{Action: rt.Action, Path: rt.Path, User: j.cred.user, Pass: j.cred.pass, IP: j.ip}, nil)
-			if rng.IntN(4) == 0 {
+			if rng.IntN(4) == 0 || (cfg.TrustedProxy && rng.IntN(2) == 0) {
 				j.spoofHdr = []string{"X-Forwarded-For", "X-Real-Ip", "Forwarded"}[rng.IntN(3)]
 				j.spoofIP = []string{"127.0.0.1", "127.0.0.2", "::1"}[rng.IntN(3)]
 				// adversarial choice: prefer an address for which the decision would be different
@@ -147,6 +150,11 @@ func AdminAuthMonitor(r *Run, cfg AdminCfg) {
 						r.Count("requests_whose_forwarding_header_names_an_address_with_the_opposite_decision", 1)
 						break
 					}
+				}
+				if cfg.TrustedProxy && j.ip == "127.0.0.1" && j.spoofHdr != "Forwarded" {
+					// through the trusted proxy: the client is the announced address
+					j.want, _ = RefAdmit(users, RefReq{Action: rt.Action, Path: rt.Path, User: j.cred.user, Pass: j.cred.pass, IP: j.spoofIP}, nil)
+					r.Count("requests_through_the_trusted_proxy", 1)
 				}
 			}
 			if j.want && !j.preflight {
@@ -183,7 +191,7 @@ func AdminAuthMonitor(r *Run, cfg AdminCfg) {
 					req.Header.Set(j.spoofHdr, j.spoofIP)
 				}
 				res, err := clients[j.ip].Do(req)
-				key := fmt.Sprintf("%s|%s %s|%s|%s|%s=%s|%v", cfg.Name, j.rt.Method, j.rt.URL, j.cred.kind, j.ip, j.spoofHdr, j.spoofIP, JSON(users))
+				key := fmt.Sprintf("%s|%v|%s %s|%s|%s|%s=%s|%v", cfg.Name, cfg.TrustedProxy, j.rt.Method, j.rt.URL, j.cred.kind, j.ip, j.spoofHdr, j.spoofIP, JSON(users))
 				if err != nil {
 					r.Inconclusive("%s: request %s %s failed: %v", cfg.Name, method, j.rt.URL, err)
 					return
@@ -242,4 +250,4 @@ func refUsersToConf(users []RefUser) []map[string]any {
 }
 
 // AdminRule is the evidence rule shared by the C04 parts.
-const AdminRule = "real server on loopback with a real auth.Manager (internal method); batches = a generated user list (0..3 users among any / admin:secret / viewer with sha256 password; IP lists none, 127.0.0.1/32, 127.0.0.2, ::1/128, 127.0.0.0/30; 1..3 permissions over api/metrics/pprof/playback(path)/read/publish) x every route of the live router x credential placement (none, Basic ok / wrong / empty password, 'Bearer user:pass', bearer token, other user) x client IP 127.0.0.1 or 127.0.0.2 (distinct loopback aliases) x optional X-Forwarded-For / X-Real-Ip / Forwarded header naming another address (no trusted proxy is configured, so it must not count) x occasional CORS preflight; denied requests run 48-way concurrently (each costs the anti-brute-force pause). Oracle = vmon.RefAdmit: not admitted => 401 with exactly the fixed error JSON and (for all-denied batches) unchanged state fingerprint; admitted => not 401; preflight => 204 with empty body. non-trivial = distinct (route, credentials, ip, user list)"
+const AdminRule = "real server on loopback with a real auth.Manager (internal method); batches = a generated user list (0..3 users among any / admin:secret / viewer with sha256 password; IP lists none, 127.0.0.1/32, 127.0.0.2, ::1/128, 127.0.0.0/30; 1..3 permissions over api/metrics/pprof/playback(path)/read/publish) x every route of the live router x credential placement (none, Basic ok / wrong / empty password, 'Bearer user:pass', bearer token, other user) x client IP 127.0.0.1 or 127.0.0.2 (distinct loopback aliases) x optional X-Forwarded-For / X-Real-Ip / Forwarded header naming another address (each server runs twice: with no trusted proxy, where it must not count, and with 127.0.0.1 as trusted proxy, where a request arriving from 127.0.0.1 is the announced client's) x occasional CORS preflight; denied requests run 48-way concurrently (each costs the anti-brute-force pause). Oracle = vmon.RefAdmit: not admitted => 401 with exactly the fixed error JSON and (for all-denied batches) unchanged state fingerprint; admitted => not 401; preflight => 204 with empty body. non-trivial = distinct (route, credentials, ip, user list)"
